@@ -226,7 +226,11 @@ def known_streams():
 
 
 def utf8_streams():
-    return [("utf8char", list(c.encode("utf-8"))) for c in ("é", "你", "─", "\U0001f600", "ÿ", "߿", "ࠀ", "￿", "\U00010000")]
+    good = [("utf8char", list(c.encode("utf-8"))) for c in ("é", "你", "─", "\U0001f600", "ÿ", "߿", "ࠀ", "￿", "\U00010000", "\U0010ffff")]
+    # well-formed lead + continuation bytes that the codec still rejects: over-long forms, a surrogate, beyond U+10FFFF
+    bad = [("utf8bad", list(b)) for b in (b"\xc0\x80", b"\xc1\xbf", b"\xe0\x80\x80", b"\xe0\x9f\xbf", b"\xf0\x80\x80\x80", b"\xf0\x8f\xbf\xbf",
+                                           b"\xed\xa0\x80", b"\xed\xbf\xbf", b"\xf4\x90\x80\x80", b"\xf5\x80\x80\x80", b"\xf7\xbf\xbf\xbf")]
+    return good + bad
 
 
 def wide_streams():
